@@ -6,9 +6,6 @@ import (
 	"fmt"
 	"io"
 	"math/rand"
-	"os"
-	"path/filepath"
-	"regexp"
 	"sort"
 	"strings"
 	"sync"
@@ -241,7 +238,7 @@ func init() {
 			"distinct = hash(input class, script, API, interleaving signature); non-trivial = the call returned and all counters were examined",
 		Assumptions:   []string{"perturbation only delays at real suspension points; it cannot produce schedules the program cannot have", "in the thorough tier the workload also runs under the race detector build"},
 		MinNontrivial: 1000,
-		Race:          func(tier string) bool { return false },
+		RaceAlso:      func(tier string) bool { return tier == "thorough" },
 		Run: func(c *core.Ctx) {
 			inputs := c11Inputs()
 			var i int64
@@ -504,46 +501,6 @@ func c12SharedProg(c *core.Ctx, i int64, r *rand.Rand) {
 	c.Nontrivial(core.Hash("s", i))
 }
 
-var raceBlockRe = regexp.MustCompile(`(?s)WARNING: DATA RACE.*?==================`)
-var frameRe = regexp.MustCompile(`(?m)^  (\S+)\(`)
-
-// c12Races reads the race detector's log files and deduplicates reports.
-func c12Races(dir string) (reports int, distinct map[string]string) {
-	distinct = map[string]string{}
-	ms, _ := filepath.Glob(filepath.Join(dir, "race.*"))
-	for _, m := range ms {
-		data, _ := os.ReadFile(m)
-		for _, blk := range raceBlockRe.FindAllString(string(data), -1) {
-			if !strings.Contains(blk, "github.com/wkhere/bcl.") {
-				continue
-			}
-			reports++
-			// signature: the two access stacks' library functions, line numbers stripped
-			var fns []string
-			for _, part := range strings.Split(blk, "\n\n") {
-				if strings.Contains(part, "Goroutine ") && strings.Contains(part, "created at") {
-					continue
-				}
-				for _, fm := range frameRe.FindAllStringSubmatch(part, -1) {
-					if strings.HasPrefix(fm[1], "github.com/wkhere/bcl.") {
-						fns = append(fns, strings.TrimPrefix(fm[1], "github.com/wkhere/bcl."))
-						break
-					}
-				}
-			}
-			if len(fns) > 2 {
-				fns = fns[:2]
-			}
-			sort.Strings(fns)
-			sig := "race:" + strings.Join(fns, "|")
-			if _, ok := distinct[sig]; !ok {
-				distinct[sig] = blk
-			}
-		}
-	}
-	return
-}
-
 func init() {
 	core.Register(&core.Check{
 		ID:    "C12",
@@ -556,9 +513,7 @@ func init() {
 		MinNontrivial: 200,
 		Race:          func(tier string) bool { return true },
 		Shards:        func(tier string) int { return 8 },
-		Env: func(dir string) []string {
-			return []string{"GORACE=halt_on_error=0 log_path=" + filepath.Join(dir, "race") + " history_size=3 exitcode=0"}
-		},
+		Env:           core.RaceEnv,
 		Run: func(c *core.Ctx) {
 			n := int64(c.Pick(5000, 100000))
 			for i := int64(0); i < n; i++ {
@@ -578,7 +533,7 @@ func init() {
 			}
 		},
 		Post: func(p *core.Parent) {
-			reports, distinct := c12Races(p.Dir)
+			reports, distinct := core.ScanRaceLogs(p.Dir)
 			p.Extra["race_detector_reports"] = reports
 			p.Extra["race_detector_distinct_reports"] = len(distinct)
 			p.Extra["race_detector_executions"] = p.Merged.Evaluations
